@@ -1,6 +1,7 @@
 package rules
 
 import (
+	"go/token"
 	"fmt"
 	"go/types"
 	"sort"
@@ -33,6 +34,7 @@ func c17(c *Ctx) {
 	c17R4(c, "R4")
 	c17R5(c, "R5")
 	c17R6(c, "R6")
+	c17R7(c, "R7")
 }
 
 func loopSelect(c *Ctx, fn *ssa.Function) *ssa.Select {
@@ -204,6 +206,17 @@ func c17R2(c *Ctx, rule string) {
 		})
 		c.Check(rule, "appendConfigurationEntry:dispatches-own-future", c.P.Pos(fn.Pos()), "the dispatched future is the request's embedded logFuture", okArg, pick(okArg, "&future.logFuture", "something else"), 1)
 	}
+	if lt := c.Fn(rule, "(*Raft).leadershipTransfer"); lt != nil {
+		r := c.Run(&engine.Automaton{Fn: lt, Tracks: []engine.Track{
+			engine.Event("reported", func(in ssa.Instruction) bool {
+				s, ok := in.(*ssa.Send)
+				return ok && c.P.D(s.Chan) == "p5"
+			}),
+		}})
+		for i, ret := range engine.ReturnsOf(lt) {
+			c.RequireAt(r, rule, fmt.Sprintf("leadershipTransfer:always-reports-on-doneCh#%d", i+1), ret, "every exit of the transfer worker sends its outcome on doneCh (the bookkeeping goroutine waits for it before it clears leadershipTransferInProgress)", func(v engine.View) bool { return v.Seen("reported") })
+		}
+	}
 	if fn := c.Fn(rule, "(*Raft).leaderLoop$go"); fn != nil {
 		r := c.Run(&engine.Automaton{Fn: fn, Tracks: []engine.Track{
 			engine.Event("answered", func(in ssa.Instruction) bool {
@@ -224,6 +237,13 @@ func c17R2(c *Ctx, rule string) {
 					}
 				}
 				c.Check(rule, "leaderLoop/transfer-goroutine:select-has-timer", c.P.InstrPos(in), "each wait in the transfer goroutine races an ElectionTimeout timer", ok2, pick(ok2, "timer case present", "no timer"), 1)
+			}
+			// a bare receive outside a select waits without any bound
+			if u, ok := in.(*ssa.UnOp); ok && u.Op == token.ARROW {
+				d := c.P.D(u.X)
+				c.RequireAt(r, rule, "leaderLoop/transfer-goroutine:no-unbounded-receive", in, "the transfer goroutine waits on a single channel without a timer alternative only after it has answered the future (the future must resolve even if the target never takes over); here: receive from "+d, func(v engine.View) bool {
+					return v.Seen("answered") || strings.HasPrefix(d, "time.After(")
+				})
 			}
 		})
 	}
@@ -605,4 +625,53 @@ func c17R6(c *Ctx, rule string) {
 	c.RequireAt(rb, rule, "restoreUserSnapshot:cancel-loop-answers-every-inflight", loopIf, "each iteration answers the front in-flight future and removes exactly that element, then re-reads Front(); the loop ends only on an empty list", func(v engine.View) bool {
 		return loops && v.Seen("answered") && v.Seen("removed")
 	})
+}
+
+
+// c17R7: vote() may block on a send into verifyCh (a buffered queue shared
+// with API submissions, drained by the main loop). The main loop itself takes
+// followerReplication.notifyLock (verifyLeader, cleanNotify). So vote must
+// never be called with that lock held: the replication routine would park in
+// the send holding the lock, the main loop would park on the lock, and no
+// future would resolve any more.
+func c17R7(c *Ctx, rule string) {
+	isLockOp := func(name string) func(ssa.Instruction) bool {
+		return func(in ssa.Instruction) bool {
+			if _, isDefer := in.(*ssa.Defer); isDefer {
+				return false
+			}
+			cc := engine.CallCommonOf(in)
+			return cc != nil && c.P.CalleeName(cc) == name && strings.HasSuffix(c.P.D(engine.RecvValue(in)), ".notifyLock")
+		}
+	}
+	n := 0
+	for _, fn := range c.P.AllFuncs() {
+		sites := c.P.CallsIn(fn, engine.Is("(*verifyFuture).vote"))
+		if len(sites) == 0 {
+			continue
+		}
+		r := c.Run(&engine.Automaton{Fn: fn, Tracks: []engine.Track{
+			engine.Event("locked", isLockOp("(*sync.Mutex).Lock"), "unlocked"),
+			engine.Event("unlocked", isLockOp("(*sync.Mutex).Unlock")),
+		}})
+		for _, s := range sites {
+			n++
+			c.RequireAt(r, rule, c.P.Name(fn)+":vote-without-notifyLock", s.Instr, "vote (which may block sending to verifyCh) is called only with followerReplication.notifyLock released", func(v engine.View) bool {
+				return !v.Seen("locked") || v.Seen("unlocked")
+			})
+		}
+	}
+	if n == 0 {
+		c.Bad(rule, "vote:callers", "-", "callers of (*verifyFuture).vote", "none")
+	}
+	// the blocking send in vote goes to the future's notifyCh, which is verifyCh
+	if vf := c.Fn(rule, "(*verifyFuture).vote"); vf != nil {
+		sends := 0
+		engine.EachInstr(vf, func(in ssa.Instruction) {
+			if s, ok := in.(*ssa.Send); ok && c.P.D(s.Chan) == "recv.notifyCh" {
+				sends++
+			}
+		})
+		c.Check(rule, "vote:reports-on-notifyCh", c.P.Pos(vf.Pos()), "vote hands a decided future back on its notifyCh", sends >= 1, fmt.Sprintf("%d sends", sends), 1)
+	}
 }
